@@ -4,7 +4,7 @@ import ast
 from ..cfg import witness
 from ..core import AnalysisError, u, walk_local, enclosing_stmt, ancestors
 from ..lib import (construct, std_facts, def_of, copy_kind, at_least, facts_at,
-                   facts_imply, calls_of_node, in_subtree, returns_of)
+                   facts_imply, calls_of_node, in_subtree, returns_of, facts_for_expr)
 from .wrapper import WrapperModel
 from .common import allowed_stores, fresh_kwarg_defaults, signature_agreement
 
@@ -188,10 +188,10 @@ def run(ctx):
            and isinstance(n.body[-1], ast.Continue)]
   ctx.check(bool(skips), 'C07.sections', construct(cs), 'sections for the macro and constant configurables are skipped in the per-configurable listing',
             'the per-configurable listing no longer skips macro / constant-lookup entries: constant lookups would get a section', cs.loc(), instance='skip')
-  mac = [n for n in walk_local(cs.node) if isinstance(n, ast.If) and u(n.test).replace(' ', '') in
-         ('_REGISTRY[selector].wrapped==macro', 'macro==_REGISTRY[selector].wrapped')]
-  mac += [n for n in walk_local(cs.node) if isinstance(n, ast.comprehension) and
-          any(u(i).replace(' ', '') in ('_REGISTRY[selector].wrapped==macro', 'macro==_REGISTRY[selector].wrapped') for i in n.ifs)]
+  import re as _re
+  is_macro_test = lambda e: bool(_re.fullmatch(r'(_REGISTRY\[\w+\]\.wrapped==macro|macro==_REGISTRY\[\w+\]\.wrapped)', u(e).replace(' ', '')))
+  mac = [n for n in walk_local(cs.node) if isinstance(n, ast.If) and is_macro_test(n.test)]
+  mac += [n for n in walk_local(cs.node) if isinstance(n, ast.comprehension) and any(is_macro_test(i) for i in n.ifs)]
   ctx.check(bool(mac), 'C07.sections', construct(cs), 'macro entries are collected for the macro block', 'macro entries are no longer collected into the macro block',
             cs.loc(), instance='macros')
   # constant-key subscripts on record entries
@@ -201,8 +201,7 @@ def run(ctx):
         and isinstance(n.value, ast.Name):
       subs.append(n)
   for sub in subs:
-    st = enclosing_stmt(sub)
-    fs = facts_at(g3, facts3, st) or frozenset()
+    fs = facts_for_expr(g3, facts3, sub)
     key = repr(sub.slice.value)
     guarded = any(f[0] == 'c' and f[2] is True and f[1].replace(' ', '') == '%sin%s' % (key, u(sub.value)) for f in fs)
     # short-circuit guard inside the same expression:  K in D and ... D[K] ...
